@@ -22,9 +22,10 @@ type GenCfg struct {
 }
 
 type G struct {
-	T   *rapid.T
-	Cfg GenCfg
-	n   int
+	nested int // depth of choices nested in cases while generating
+	T      *rapid.T
+	Cfg    GenCfg
+	n      int
 }
 
 func (g *G) Pick(n int, l string) int { return rapid.IntRange(0, n-1).Draw(g.T, l) }
@@ -182,7 +183,17 @@ func (g *G) node(sc *scope, depth int, cfgFalse bool, inChoice bool) *Node {
 		n := &Node{Kind: "list", Name: g.id("ls"), Key: "k"}
 		key := &Node{Kind: "leaf", Name: "k", Type: &TypeSpec{Name: []string{"string", "uint32", "int8"}[g.Pick(3, "keyt")]}}
 		g.decorate(n, sc, cfgFalse)
-		n.Kids = append([]*Node{key}, g.kids(sc, depth-1, cfgFalse || n.Config == "false")...)
+		keys := []*Node{key}
+		if !g.Cfg.OneKeyLists && g.Chance(1, 4, "secondkey") {
+			// a second key, written after the first although its name sorts before it, with another value space
+			k2t := &TypeSpec{Name: "uint8", Range: "0..9"}
+			if key.Type.Name != "string" {
+				k2t = &TypeSpec{Name: "enumeration", Enums: []string{"red", "green"}}
+			}
+			keys = append(keys, &Node{Kind: "leaf", Name: "ak", Type: k2t})
+			n.Key = "k ak"
+		}
+		n.Kids = append(keys, g.kids(sc, depth-1, cfgFalse || n.Config == "false")...)
 		if g.Chance(1, 3, "lsmin") {
 			n.Min = "1"
 		}
@@ -199,6 +210,9 @@ func (g *G) node(sc *scope, depth int, cfgFalse bool, inChoice bool) *Node {
 		// unique over direct leaves (not the key)
 		var leaves []string
 		for _, k := range n.Kids[1:] {
+			if n.IsKey(k.Name) {
+				continue
+			}
 			if k.Kind == "leaf" && len(k.IfFeatures) == 0 && k.When == "" && k.Type != nil && k.Type.Name != "empty" {
 				leaves = append(leaves, k.Name)
 			}
@@ -237,8 +251,13 @@ func (g *G) node(sc *scope, depth int, cfgFalse bool, inChoice bool) *Node {
 		}
 		return n
 	case 5:
-		if inChoice {
+		if inChoice && (g.nested > 0 || !g.Chance(1, 3, "nestedchoice")) {
 			return g.leaf(sc, cfgFalse, g.id("lf"))
+		}
+		if inChoice {
+			// a choice nested in a case (one level)
+			g.nested++
+			defer func() { g.nested-- }()
 		}
 		n := &Node{Kind: "choice", Name: g.id("ch")}
 		nc := 1 + g.Pick(3, "ncases")
@@ -250,7 +269,7 @@ func (g *G) node(sc *scope, depth int, cfgFalse bool, inChoice bool) *Node {
 			cs := &Node{Kind: "case", Name: g.id("cs")}
 			nk := 1 + g.Pick(2, "ncasekids")
 			for j := 0; j < nk; j++ {
-				cs.Kids = append(cs.Kids, g.node(sc, depth-2, cfgFalse, true))
+				cs.Kids = append(cs.Kids, g.node(sc, depth-1, cfgFalse, true))
 			}
 			n.Kids = append(n.Kids, cs)
 		}
@@ -272,6 +291,10 @@ func (g *G) node(sc *scope, depth int, cfgFalse bool, inChoice bool) *Node {
 	case 6:
 		if len(sc.groupings) > 0 {
 			n := &Node{Kind: "uses", Name: sc.groupings[g.Pick(len(sc.groupings), "gref")]}
+			if !g.Cfg.NoFeatures && len(sc.features) > 0 && g.Chance(1, 3, "usesiff") {
+				// an if-feature on the uses comes on top of the if-features the nodes of the grouping have themselves
+				n.IfFeatures = []string{sc.features[g.Pick(len(sc.features), "usesfeat")]}
+			}
 			return n
 		}
 		return g.leaf(sc, cfgFalse, g.id("lf"))
@@ -469,6 +492,9 @@ func (g *G) GenSet() []*Mod {
 					a := &Augment{Target: "/" + imp.Prefix + ":" + tn.Name}
 					a.Kids = []*Node{g.leaf(sc, tn.Config == "false", g.id("aug"))}
 					a.Kids[0].Mandatory = ""
+					if !cfg.NoFeatures && len(sc.features) > 0 && g.Chance(1, 3, "augiff") {
+						a.IfFeatures = []string{sc.features[g.Pick(len(sc.features), "augfeat")]}
+					}
 					m.Augments = append(m.Augments, a)
 				}
 			}
